@@ -448,17 +448,25 @@ def time_limit(sec):
     left = signal.setitimer(signal.ITIMER_REAL, 0)[0]      # the runner's deadline (alarm and itimer share one timer)
     t0 = time.time()
 
+    ctx = {"fired": False}
+
     def h(signum, frame):
+        ctx["fired"] = True
+        if os.environ.get("FSA_DEBUG_TL"):
+            import sys as _s
+            print("TL fired", sec, file=_s.stderr, flush=True)
         raise CallTimeout("call did not return within %s s" % sec)
     signal.signal(signal.SIGALRM, h)
-    signal.setitimer(signal.ITIMER_REAL, sec)
+    # fires at `sec` and then again every half second until the block is left: a handler somewhere below that
+    # swallows the exception cannot neutralise the limit
+    signal.setitimer(signal.ITIMER_REAL, sec, 0.5)
     try:
-        yield
+        yield ctx
     finally:
         signal.setitimer(signal.ITIMER_REAL, 0)
         signal.signal(signal.SIGALRM, old)
         if left:
-            signal.setitimer(signal.ITIMER_REAL, max(0.01, left - (time.time() - t0)))
+            signal.setitimer(signal.ITIMER_REAL, max(0.01, left - (time.time() - t0)), 0.5)
 
 
 def canon_dict(d):
@@ -479,10 +487,28 @@ def bounded(run, sec=20):
         if _TIMEOUTS.get(name, 0) >= 3:
             raise CallTimeout("not run: three earlier inputs of this clause did not return within %s s" % sec)
         try:
-            with time_limit(sec):
-                return run(inp)
+            with time_limit(sec) as ctx:
+                r = run(inp)
+            if ctx["fired"]:        # the limit was hit but the exception was absorbed further down
+                raise CallTimeout("evaluation exceeded %s s" % sec)
+            return r
         except CallTimeout:
             _TIMEOUTS[name] = _TIMEOUTS.get(name, 0) + 1
             raise
     wrapped.__name__ = name
     return wrapped
+
+
+class TooMany(Exception):
+    pass
+
+
+def capped(it, cap=100000):
+    """an enumeration of the implementation, cut off far above anything the generated automata can produce (an
+    implementation whose enumerations explode — e.g. tables leaking between automata — must not exhaust memory)"""
+    n = 0
+    for x in it:
+        n += 1
+        if n > cap:
+            raise TooMany("more than %d items enumerated" % cap)
+        yield x
